@@ -10,7 +10,7 @@ import (
 
 func init() {
 	register(&propCheck{id: "C15", needRoot: true, run: checkC15,
-		explanation: "Decided statically, for SaveChangeSet only (narrow): the uncommitted-changes test is evaluated before any Set/Remove/SaveVersion and its failing edge leaves with an error; on the `key was not removed` edge an error is returned without reaching SaveVersion or another write; every success return passes exactly one SaveVersion call, which is outside the loop and followed by no Set/Remove; the change-set extraction consults both node iterators' errors. Added in the build round: every version of the requested range is diffed against its predecessor, and the previous root handed to the diff is the root looked up for start-1 on entry and the carried root afterwards (never nil / unrelated); decision table of the orphaned-leaf / new-leaf merge (TABLE-diff-merge). NOT decided: that an extracted change set equals the net writes of a version, its order and de-duplication, or replay equality — all value-level."})
+		explanation: "Decided statically, for SaveChangeSet only (narrow): the uncommitted-changes test is evaluated before any Set/Remove/SaveVersion and its failing edge leaves with an error; on the `key was not removed` edge an error is returned without reaching SaveVersion or another write; every success return passes exactly one SaveVersion call, which is outside the loop and followed by no Set/Remove; the change-set extraction consults both node iterators' errors. Added in the build round: every version of the requested range is diffed against its predecessor, and the previous root handed to the diff is the root looked up for start-1 on entry and the carried root afterwards (never nil / unrelated); decision table of the orphaned-leaf / new-leaf merge (TABLE-diff-merge). NOT decided: that an extracted change set equals the net writes of a version, its order and de-duplication, or replay equality — all value-level. Rules added in the later seeding rounds (each listed with what it decides in this file's rule table) are described in DESIGN.md §3 \"Third and fourth seeding rounds\" and Appendix C3–C5."})
 }
 
 func checkC15(c *Ctx) {
